@@ -171,6 +171,15 @@ def bodyRun (dbg : Bool) (s : Sched) (pre : List Ev) (head tail : Nat) (k : Kern
   let k' := r.1.steps s.beforeStore
   ({ k' with head := r.2.2 }, pre ++ r.2.1 ++ [.storeHead r.2.2])
 
+/-- The loop left by unwinding (fix ecc12ae): user code — the `Waker`, the `Drop` of a dropped
+operation's resources — panics while the `m`-th entry of the batch is processed (`1 ≤ m`; the
+entry counts as handed over: the local head is advanced before `process` is called). The drop
+guard `UpdateHead` stores the head while the stack unwinds. -/
+def bodyUnwind (s : Sched) (pre : List Ev) (head m : Nat) (k : Kern) : Kern × List Ev :=
+  let r := loopRun s (wadd head m) 4294967296 0 head k
+  let k' := r.1.steps s.beforeStore
+  ({ k' with head := r.2.2 }, pre ++ r.2.1 ++ [.storeHead r.2.2])
+
 /-- cq.rs:58-101. -/
 def pollRun (dbg : Bool) (k : Kern) (s : Sched) : Kern × List Ev :=
   let head := k.head
